@@ -7,6 +7,7 @@ import (
 	"fmt"
 	"io"
 	"io/fs"
+	"math"
 	"os"
 	"path/filepath"
 	"runtime"
@@ -201,6 +202,10 @@ func (viso *VirtualISO) buildFSStructures(volumeName string) error {
 	filesLBA := jolietLBA + viso.rootDir.size(true).sectors()
 
 	viso.calculateSizes(filesLBA)
+
+	if viso.volumeSizeSectors > math.MaxUint32 {
+		return fmt.Errorf("directory content is too large for ISO 9660 volume (%d sectors)", viso.volumeSizeSectors)
+	}
 
 	viso.makeVolumeDescriptors(volumeName)
 
